@@ -9,6 +9,7 @@ from concurrent.futures import ThreadPoolExecutor, as_completed
 from dataclasses import dataclass, field
 
 VERIF = os.path.dirname(os.path.dirname(os.path.abspath(__file__)))
+VIN_SLOTS = 200   # = VIN_MAX in harness/vh.h
 REPO = os.environ.get("VERIF_REPO", "/repo")
 GUARD = "LIBERASURECODE_VERIF"
 
@@ -549,8 +550,28 @@ def execute(ctx, obs, native_steps=(), assumptions=(), trusted=(), extra_cov=Non
     violations, known_hit, ub_only, model_err, inconcl = [], {}, [], [], []
     replayed = 0
     tasks = []
+    hard_errors = []
     for r in results:
-        if r.verdict in ("inconclusive", "error"):
+        if r.verdict == "error" and r.binary and "no result section" in r.note and "unwinding" not in r.note:
+            # CBMC itself aborted (e.g. SIGSEGV on a memcpy with a negative length): fall back to running the same
+            # harness natively on two fixed input vectors; a sanitizer/assertion failure there is a reproduced violation
+            hit = None
+            for fill in (0, 0xA5A5A5A5A5A5A5A5):
+                st, out = replay_values(ctx, r.ob, [fill] * VIN_SLOTS)
+                if st == "reproduced":
+                    rdir = os.path.join(VERIF, "replay", "found"); os.makedirs(rdir, exist_ok=True)
+                    rpath = os.path.join(rdir, re.sub(r"[^A-Za-z0-9_.-]", "_", f"{ctx.prop}-{r.ob.id}-cbmc-abort")[:150] + ".json")
+                    json.dump({"property": ctx.prop, "obligation": r.ob.id, "harness": r.ob.harness, "defs": r.ob.defs, "units": r.ob.units,
+                               "failed": "cbmc aborted; native run", "vin": [fill] * VIN_SLOTS}, open(rpath, "w"))
+                    hit = (r, "CBMC aborted on this query (" + r.note[:60] + "); the same harness run natively on a fixed input fails", "", rpath, out)
+                    break
+            if hit:
+                violations.append(hit)
+                continue
+        if r.verdict == "error":
+            hard_errors.append(r)
+            continue
+        if r.verdict == "inconclusive":
             if r.ob.required:
                 inconcl.append(r)
             continue
@@ -569,6 +590,15 @@ def execute(ctx, obs, native_steps=(), assumptions=(), trusted=(), extra_cov=Non
         for keyd, prop in items[:cap]:
             desc, loc = keyd.rsplit("@", 1)
             tasks.append((r, desc, loc, prop))
+
+    gcap = int(os.environ.get("VERIF_TRIAGE_TOTAL", "48"))
+    if len(tasks) > gcap:
+        ctx.say(f"  note: {len(tasks)} failing checks across {len({t[0].ob.id for t in tasks})} queries; replaying the first {gcap} (property assertions first, one per query first)")
+        first, rest, seen = [], [], set()
+        for t in tasks:
+            (first if t[0].ob.id not in seen else rest).append(t)
+            seen.add(t[0].ob.id)
+        tasks = (first + rest)[:gcap]
 
     def triage(t):
         r, desc, loc, prop = t
@@ -612,6 +642,8 @@ def execute(ctx, obs, native_steps=(), assumptions=(), trusted=(), extra_cov=Non
         ctx.say(f"MODEL-ERROR: property={ctx.prop} ob={r.ob.id} {desc} @ {loc}: {why}")
     for r in inconcl:
         ctx.say(f"INCONCLUSIVE: property={ctx.prop} ob={r.ob.id} {r.verdict} {r.note[:500]}")
+    for r in hard_errors:
+        ctx.say(f"MACHINERY-ERROR: property={ctx.prop} ob={r.ob.id} {r.note[:500]}")
     native_viol = []
     native_info = []
     for step in native_steps:
@@ -672,10 +704,10 @@ def execute(ctx, obs, native_steps=(), assumptions=(), trusted=(), extra_cov=Non
     with open(os.path.join(evdir, f"{ctx.prop}.json"), "w") as f:
         json.dump(ev, f, indent=1)
     ctx.say(f"[{ctx.prop}] obligations={len(results)} discharged={len(discharged)} known={len(known_hit)} ub_only={len(ub_only)} "
-            f"inconclusive={len(inconcl)} model_errors={len(model_err)} violations={nviol} wall={time.time()-ctx.t0:.1f}s")
+            f"inconclusive={len(inconcl)} machinery_errors={len(hard_errors)} model_errors={len(model_err)} violations={nviol} wall={time.time()-ctx.t0:.1f}s")
     if nviol:
         return 1
-    if model_err:
+    if model_err or hard_errors:
         return 2
     if inconcl:
         # a query that ran out of time/memory was not explored: it is reported (INCONCLUSIVE lines, evidence
